@@ -100,7 +100,7 @@ static void mig_after_point_t(actor *a, uint64_t tp)
             w += sprintf(want + w, "%d ", m->npool[f]);
     }
     hist(a, "mig_obs", pi, done, ok);
-    if (done && !ok)
+    if (done && !ok && !ALOAD(g_bulk_moves))
         viol("migration: unit %s%d was scheduled again out of pool %d after an accepted request "
              "had returned; target(s) that can be in force: %s(-1: other stream, <-1: stream -2-x)",
              a->kind == A_MAIN ? "main" : "u", a->id, pi, want);
@@ -172,12 +172,12 @@ static void op_mig(actor *a, int ui, int how, int target)
                 if (j != k && ALOAD(m->returned[j]) != 2 &&
                     (m->npool[j] == target || m->npool[j] < 0))
                     maybe = 1;
-            if (!maybe)
+            if (!maybe && !ALOAD(g_bulk_moves))
                 viol("migrate_to_pool(%d) was rejected as the current pool, but the unit is in pool %d", target, cur);
             stat_add("mig_rejected_same_pool", 1);
             return;
         }
-        if (rc == ABT_SUCCESS && target == cur && !pending)
+        if (rc == ABT_SUCCESS && target == cur && !pending && !ALOAD(g_bulk_moves))
             viol("migrate_to_pool to the unit's current pool %d was accepted", cur);
         CHECK_RC(rc, "ABT_thread_migrate_to_pool");
     } else if (how == 3) {
